@@ -8,6 +8,7 @@ import (
 	"fmt"
 	"math"
 	"math/big"
+	"math/bits"
 )
 
 const debugDecimal = false // enable for debugging
@@ -1124,7 +1125,13 @@ func (z *Decimal) SetFloat64(x float64) *Decimal {
 	z.form = finite
 	fmant, exp2 := math.Frexp(x) // get normalized mantissa
 	exp2 -= 53
-	z.mant = z.mant.setUint64(1<<52 | (math.Float64bits(fmant) & (1<<52 - 1)))
+	mant := 1<<52 | (math.Float64bits(fmant) & (1<<52 - 1))
+	// use the shortest mantissa, so that the power of two below is as small
+	// as possible (and exact whenever x fits into z.prec digits)
+	tz := bits.TrailingZeros64(mant)
+	mant >>= uint(tz)
+	exp2 += tz
+	z.mant = z.mant.setUint64(mant)
 	z.exp = int32(len(z.mant))*_DW - int32(dnorm(z.mant))
 	if exp2 != 0 {
 		// multiply / divide by 2**exp with increased precision
